@@ -654,14 +654,15 @@ class SCFG(Sized):
                 branch_value_table[branch_variable_value] = s
                 # update branching variable
                 branch_variable_value += 1
-                # replace previous successor with synth_assign
+                # replace previous successor with synth_assign, one arc at a
+                # time, such that a branching predecessor can update its
+                # branch value table
                 jt[jt.index(s)] = synth_assign
-            # finally, replace the jump_targets
-            self.add_block(
-                self.graph.pop(name).replace_jump_targets(
-                    jump_targets=tuple(jt)
+                self.add_block(
+                    self.graph.pop(name).replace_jump_targets(
+                        jump_targets=tuple(jt)
+                    )
                 )
-            )
         # initialize new block, which will hold the branching table
         new_block = SyntheticHead(
             name=new_name,
